@@ -135,13 +135,20 @@ def facts_to_obs(ctx: Ctx, facts, mapping) -> None:
 
 def run(ctx: Ctx) -> None:
     ctx.rule('R05.1', 'allowed_codes names are exported registered code classes; id = class name', floor=14)
-    ctx.rule('R05.2', 'decode returns a 2n vector [X-correction | Z-correction] with the decoded halves filled', floor=22)
+    ctx.rule('R05.2', 'decode returns a 2n vector [X-correction | Z-correction] with the decoded halves filled', floor=20)
     ctx.rule('R05.3', 'solver on Hz <-> Z-row syndrome <-> X half (dually Hx); [z|x] swapped back', floor=30)
     ctx.rule('R05.4', 'no scalar conversion of a sized NumPy draw', floor=2)
+    ctx.rule('R05.5', 'nothing memoised per code object depends on what deform() changes on that object', floor=1)
     ctx.trust('PyMatching / ldpc BpOsdDecoder / Support return a solution for the matrix and syndrome they are given',
               'SweepDecoder3D / RotatedSweepDecoder3D return a Z-only BSF vector (decided by C10 R10.2)',
               'XCubeMatchingDecoder is outside R05.3 (projection onto auxiliary 2-D codes, see DESIGN.md)')
-    _r051(ctx)
-    facts = sector.analyse(ctx.model)
-    facts_to_obs(ctx, facts, {'output': 'R05.2', 'matrix': 'R05.3', 'syndrome': 'R05.3'})
-    r054_scalar_of_sized(ctx)
+    with ctx.part():
+        _r051(ctx)
+    with ctx.part():
+        facts = sector.analyse(ctx.model)
+        facts_to_obs(ctx, facts, {'output': 'R05.2', 'matrix': 'R05.3', 'syndrome': 'R05.3'})
+    with ctx.part():
+        r054_scalar_of_sized(ctx)
+    with ctx.part():
+        from .c06 import memo_code_rule
+        memo_code_rule(ctx, 'R05.5')
